@@ -15,10 +15,10 @@ MRTS_T = [0.0, 0.5 * U, U, 2 * U, 3 * U, 4 * U, 6 * U, 8 * U, 16 * U, 40 * U]
 
 def plan(tier):
     if tier == "quick":
-        regimes = [("dense", 1, 5), ("bounded", 3, 6, 8)]
+        regimes = [("dense", 1, 5), ("bounded", 3, 6, 8), ("near", 2, 3)]
         menu = MRTS_Q
     else:
-        regimes = [("dense", 1, 8), ("bounded", 3, 9, 12)]
+        regimes = [("dense", 1, 8), ("bounded", 3, 9, 12), ("near", 2, 4)]
         menu = MRTS_T
     desc, total = pairs.describe_regimes(regimes, 2)
     return {
@@ -89,8 +89,7 @@ def evaluate(r, trains, edges, mrts, be, rank=()):
 
 
 def check_state(r, k, masks, task):
-    trains = [lattice.times(m) for m in masks]
-    edges = lattice.edges(k)
+    trains, edges = pairs.trains_edges(k, masks)
     ns = pairs.nspikes(masks)
     for mi, m in enumerate(task["menu"]):
         evaluate(r, trains, edges, m, task["backend"], (k, ns, mi))
